@@ -54,10 +54,10 @@ type Hist struct {
 	EnqRetSeq []int64
 	Errs      []*jobErr
 
-	CancelSeq atomic.Int64 // seq right after cancel() returned (0 = never)
-	WaitSeq0  int64
-	WaitSeq1  int64
-	WaitErr   error
+	CancelSeq          atomic.Int64 // seq right after cancel() returned (0 = never)
+	WaitSeq0           int64
+	WaitSeq1           int64
+	WaitErr            error
 	WaitCtxErrAtReturn error
 
 	MaxInflight atomic.Int32
@@ -68,16 +68,16 @@ type Hist struct {
 	afterWait     atomic.Bool
 
 	// state reports (checked inline; only aggregates and violations kept)
-	NReports        atomic.Int64
-	NReportsBusy    atomic.Int64 // Ready>0 && exec>0
-	repMu           sync.Mutex
-	ReportViolation []string
+	NReports         atomic.Int64
+	NReportsBusy     atomic.Int64 // Ready>0 && exec>0
+	repMu            sync.Mutex
+	ReportViolation  []string
 	ReportsAfterWait atomic.Int64
-	ReportSamples   []Report
-	hookOngoing     atomic.Int64 // written on the loop goroutine
+	ReportSamples    []Report
+	hookOngoing      atomic.Int64 // written on the loop goroutine
 
 	// hook event counts
-	HookCounts [NumPoints]atomic.Int64
+	HookCounts     [NumPoints]atomic.Int64
 	MaxHookOngoing atomic.Int64
 
 	GoroutineSamples []int // census taken inside bodies
@@ -90,11 +90,11 @@ type Hist struct {
 	baseSched int
 	// Livelock is set when the Scheduler Loop exceeded its exact iteration
 	// budget (or, in virtual time, the state-report budget) and was stopped.
-	Livelock atomic.Value // string
-	loopBudget atomic.Int64
+	Livelock     atomic.Value // string
+	loopBudget   atomic.Int64
 	reportBudget int64
-	LeakDump string // RT: non-empty when scheduler goroutines survived quiescence
-	Hang     string // RT: non-empty when the watchdog fired (stable all-blocked dump)
+	LeakDump     string // RT: non-empty when scheduler goroutines survived quiescence
+	Hang         string // RT: non-empty when the watchdog fired (stable all-blocked dump)
 }
 
 var seqCounter atomic.Int64
